@@ -32,6 +32,7 @@ VALUES = {
     'p': [UA, UB, UC], 'r': [DOC, UA], 'f': [gen.vbool(True), gen.vbool(False)], 'n': [gen.vlong(1), gen.vlong(2)],
     'm': [gen.vlong(1), gen.vstr('s'), gen.vlong(gen.MAX64)], 'w': [UA, UB], 'g': [G, gen.vent('Group', 'h'), UA],
     's': [gen.vstr('10.0.0.1'), gen.vstr('1.5'), gen.vstr('not a literal'), gen.vlong(3)],
+    'a': [ACT, gen.vent('Action', 'edit'), ACT],
 }
 
 
@@ -101,7 +102,13 @@ def gen_template(r):
         if r.random() < 0.3:
             fields.append(('ss', gen.vset([gen.vset([var('n') if r.random() < 0.7 else gen.vlong(1)]), gen.vset([])])))
         ctx = gen.vrec(fields)
-    return p, ACT, res, ctx, ignored
+    a = ACT
+    ka = r.random()
+    if ka < 0.12:
+        a = var('a')                      # the action may be a variable or ignored too
+    elif ka < 0.16:
+        a = ign(); ignored.add('action')
+    return p, a, res, ctx, ignored
 
 
 def atom_expr(r):
@@ -218,7 +225,7 @@ def build_case(r, cid):
     eff = r.choice(['permit', 'forbid'])
     pol = ['policy', S('p'), eff, scope_for(r, 'principal'), scope_for(r, 'action'), scope_for(r, 'resource'), ['conds'] + conds]
     names = set()
-    for part in (p, res, ctx):
+    for part in (p, a, res, ctx):
         vars_of(part, names)
     names = sorted(names)
     pools = []
@@ -230,12 +237,12 @@ def build_case(r, cid):
         else:
             pools.append(VALUES[nm])
     comps = []
-    ign_vals = {'principal': [UA, UB], 'resource': [DOC, UA],
+    ign_vals = {'principal': [UA, UB], 'resource': [DOC, UA], 'action': [ACT, gen.vent('Action', 'edit')],
                 'context': [gen.vrec([('flag', gen.vbool(True)), ('n', gen.vlong(1)), ('who', UA)]), gen.vrec([])]}
     ign_parts = sorted(ignored)
     for combo in itertools.product(*pools):
         sigma = dict(zip(names, combo))
-        base = {'principal': subst(p, sigma), 'resource': subst(res, sigma), 'context': subst(ctx, sigma)}
+        base = {'principal': subst(p, sigma), 'action': subst(a, sigma), 'resource': subst(res, sigma), 'context': subst(ctx, sigma)}
         # nested ignore marker inside the context: completions give it a concrete value for the original
         for ivals in itertools.product(*[ign_vals[x] for x in ign_parts]):
             orig = dict(base)
@@ -254,8 +261,8 @@ def build_case(r, cid):
                 f = dict(fixed)
                 if repl is not None:
                     o['context'] = deign(o['context'], repl)
-                req1 = ['req', o['principal'], a, o['resource'], o['context']]
-                req2 = ['req', f['principal'], a, f['resource'], f['context']]
+                req1 = ['req', o['principal'], o['action'], o['resource'], o['context']]
+                req2 = ['req', f['principal'], f['action'], f['resource'], f['context']]
                 comps.append(['c', req1, req2])
             if len(comps) > 40:
                 break
